@@ -1,5 +1,6 @@
 import RedisVerif.Driver.Codec
 import RedisVerif.Props.C11
+import RedisVerif.Model.Apply
 
 /-
   C11 sub-driver (stateful): a store image, an in-memory manifest built through the manifest
@@ -17,6 +18,10 @@ import RedisVerif.Props.C11
     REC                                           → ok chk=<-|n> (<key> <rv> ;)* deltas <n> (<key> <rv> ;)* fold <n> (<key> <rv> ;)*
                                                     | err <class>
     RECWAL                                        → same, through recover_with_wal
+    APPLY                                         → applied <n> (<key> <rv> ;)*   the replication-state value of
+                                                    every key after recover + apply_recovered_state on a
+                                                    fresh node (sorted by key), | err <class>
+    APPLYWAL                                      → same after recover_with_wal
 -/
 namespace RedisVerif.Driver.C11
 open RedisVerif RedisVerif.Driver RedisVerif.Stream
@@ -52,6 +57,17 @@ def showRec : Except RecErr Recovered → String
       | none => "-"
       | some m => showDeltas m
     s!"ok chk={chk} deltas {showDeltas r.deltas} fold {showDeltas (foldState r.updates)}"
+
+/-- the applied state, listed for every key that has a recovered update (router: any — the
+    per-key result does not depend on it, `C11.apply_recovered_equals_fold`) -/
+def showApplied (rid : Nat) : Except RecErr Recovered → String
+  | .error e => showRec (.error e)
+  | .ok r =>
+    let route : Nat → Nat := fun k => k % 16
+    let n := applyRecoveredState route (Node.fresh rid false) r.chk r.deltas
+    let keys := (foldState r.updates).map (·.1)
+    let vs : List Delta := keys.filterMap (fun k => (n.value route k).map (fun v => (k, v)))
+    s!"applied {showDeltas vs}"
 
 def deltaP : P Delta := do
   let k ← strKey
@@ -112,6 +128,8 @@ def step (s : St) (line : String) : St × String :=
     | none => (s, "bad-op")
   | ["REC"] => (s, showRec (recover s.store s.rid))
   | ["RECWAL"] => (s, showRec (recoverWithWal s.store s.rid s.wal))
+  | ["APPLY"] => (s, showApplied s.rid (recover s.store s.rid))
+  | ["APPLYWAL"] => (s, showApplied s.rid (recoverWithWal s.store s.rid s.wal))
   | _ =>
     match runP parseCmd line with
     | some (.seg id ds) => ({ s with store := NMap.insert (segName id) (.segment ds) s.store }, "ok")
